@@ -23,7 +23,8 @@
          is `(uniform 8k-byte string) mod 2^bit_length`, uniform on `[0, 2^bit_length)`.
   T19.3  fixed = boxed: `boxed_eq_fixed_mod`, `boxed_eq_fixed_bits` (same value, same consumption,
          same errors, for every stream).
-  T19.4  `NonZero` / `Odd`: invariant and exact consumption (`nonzero_*`, `odd_*`).
+  T19.4  `NonZero` / `Odd`: invariant and exact consumption (`nonzero_*`, `odd_*`); `Limb::random_mod`
+         range and refinement of the byte-wise sampler (`limb_random_mod_*`).
   Refinements used as mathematical functions (other properties): bit length of a value, `is_zero`,
   Montgomery round trip of `ConstMontyForm` (C08).
 -/
@@ -313,20 +314,17 @@ theorem odd_uint_invariant (N : Nat) (hN : 1 ≤ N) (r : Rng) (hr : WFB r.rest) 
 theorem const_monty_random_eq (fuel : Nat) (r : Rng) (m : List Nat) :
     constMontyRandom fuel r m = uintRandomMod fuel r m := rfl
 
-/-
-  FULL STATEMENT (unproved): `Limb::random_mod` refines the byte-wise value-level sampler on every
-  stream:
-    ∀ m, 0 < m → m < B → ∀ fuel bs, WFB bs →
-      (match limbRandomMod fuel ⟨bs, 0⟩ m with | .ok v r' => some (v, r'.used) | _ => none)
-        = specLimbRandomMod fuel m bs
-  (i.e. each candidate is the next ⌈bits m / 8⌉ bytes little-endian reduced mod 2^(bits m), accepted
-  iff `< m`). Proved below: the range part, for every stream. The missing fact is the value of the
-  refilled byte buffer, `H_refill`:
-    leBytes (limbRefill nBytes (255 >>> (8·nBytes − nBits)) buf bs) = leBytes bs % 2 ^ nBits
-  for `buf` with zero bytes at positions `≥ nBytes`. The correspondence run checks the implementation
-  against both `limbRandomMod` (L1) and `specLimbRandomMod` (L0) on every `c19.l.*` line.
--/
-theorem limb_random_mod_range_partial {m : Nat} (hm : m < B) (fuel : Nat) (r : Rng) (hr : WFB r.rest)
+/-- `Limb::random_mod`: the byte-buffer loop (buffer kept across iterations, top byte masked) equals,
+    on every stream, the byte-wise value-level sampler: each candidate is the next `⌈bits m / 8⌉`
+    bytes little-endian reduced mod `2^(bits m)`, accepted iff `< m` (`ct_lt` = `from_word_lt`);
+    same value, same bytes consumed. Uniformity follows as for `random_mod`. -/
+theorem limb_random_mod_refines {m : Nat} (h0 : m ≠ 0) (hm : m < B) (fuel : Nat) (bs : List Nat)
+    (hb : WFB bs) :
+    toSpecL (limbRandomMod fuel ⟨bs, 0⟩ m) = specLimbRandomMod fuel m bs :=
+  limbRandomMod_refines h0 hm fuel bs hb
+
+/-- `Limb::random_mod` result `< m` on every stream -/
+theorem limb_random_mod_range {m : Nat} (hm : m < B) (fuel : Nat) (r : Rng) (hr : WFB r.rest)
     {v : Nat} {r' : Rng} (h : limbRandomMod fuel r m = .ok v r') : v < m := by
   unfold limbRandomMod at h
   have hb : bitLen m ≤ 64 := bitLen_le (by rw [← B_eq_pow]; exact hm)
